@@ -1157,7 +1157,7 @@ def run(ctx):
         ctx.lean_stage()
         return _run_rest(ctx)
     kit.gen_stage(ctx)                        # regenerates lean/PrecondVerif/Gen/Src.lean from the current source (no-op < 0.1 s)
-    ctx.lean_stage(extra_props=("Gen",))      # also builds/audits PrecondVerif.GenProps.C13.* from Props/Gen.lean
+    ctx.lean_stage(extra_props=("Gen", "Compose"))   # also builds/audits PrecondVerif.GenProps.C13.* (Props/Gen.lean) and ComposeProps.C13.* (Props/Compose.lean)
     ctx.notes.append("model tie #2: every `to_pad = -n % d` of distributed_shampoo.py regenerated by harness/py2lean.py; "
                      "GenProps.C13.to_pad_devices_bridge proves Gen.toPad = Devices.toPad for D > 0")
     return _run_rest(ctx)
